@@ -190,7 +190,7 @@ def conform(v, part, scenarios, tier, aspects, sig_of, nontrivial, confirm_patie
     def drain(name, cfg, ids, tag):
         reports = 0
         ids = list(ids)
-        while ids and reports < 4:
+        while ids and reports < 2:
             res, sel = validate(ids, cfg, tag)
             if res["accepted"]:
                 break
@@ -311,8 +311,8 @@ def run(tier):
     threads = [threading.Thread(target=guarded, args=(model_checking, v, tier))]
 
     def part_ctl():
-        sc = bounded_scenarios("ctl", "Scen_Bounded_big.cfg" if big else "Scen_Bounded.cfg", 8 if big else 4,
-                               30 if big else 20, 30000 if big else 8000, 1)
+        sc = bounded_scenarios("ctl", "Scen_Bounded_big.cfg" if big else "Scen_Bounded.cfg", 16 if big else 4,
+                               48 if big else 20, 30000 if big else 8000, 1)
         conform(v, "ctl", sc, tier, BOUNDED_ASPECTS, sig_bounded, nontrivial_bounded)
 
     def part_real():
